@@ -691,6 +691,63 @@ func typeConfusions(b []byte, depth int, emit func([]byte)) {
 	}
 }
 
+// nestedMutations damages the CBOR held inside the byte strings of a well-formed CBOR encoding and wraps the
+// result in a byte-string head of the right length again (a decoder that reads the envelope with a library
+// and the elements by hand sees a sound envelope around a damaged element).
+func nestedMutations(b []byte, emit func([]byte)) {
+	wrap := func(sp [2]int, m []byte) {
+		var head []byte
+		switch {
+		case len(m) < 24:
+			head = []byte{0x40 | byte(len(m))}
+		case len(m) < 256:
+			head = []byte{0x58, byte(len(m))}
+		default:
+			head = []byte{0x59, byte(len(m) >> 8), byte(len(m))}
+		}
+		emit(append(append(append(append([]byte{}, b[:sp[0]]...), head...), m...), b[sp[1]:]...))
+	}
+	for _, sp := range cborItems(b) {
+		if b[sp[0]]>>5 != 2 {
+			continue
+		}
+		hl := 1
+		switch b[sp[0]] & 0x1f {
+		case 24:
+			hl = 2
+		case 25:
+			hl = 3
+		case 26:
+			hl = 5
+		case 27:
+			hl = 9
+		}
+		inner := b[sp[0]+hl : sp[1]]
+		if len(inner) <= 2 || len(inner) > 400 || cborItems(inner) == nil {
+			continue
+		}
+		n := len(inner)
+		for i := 0; i < n; i++ {
+			wrap(sp, inner[:i])                                               // truncation
+			wrap(sp, append(append([]byte{}, inner[:i]...), inner[i+1:]...)) // deletion
+			for _, v := range []byte{0x00, 0x7f, 0x80, 0xff} {
+				m := append([]byte{}, inner...)
+				m[i] = v
+				wrap(sp, m)
+			}
+			// the additional-information bits of a head: every width form, the payload bytes left as they are
+			// (a 4-byte integer announced as 8 bytes, an 8-byte one as 1 byte, an indefinite length, ...)
+			for _, ai := range []byte{0, 23, 24, 25, 26, 27, 28, 31} {
+				if inner[i]&0x1f != ai {
+					m := append([]byte{}, inner...)
+					m[i] = inner[i]&0xe0 | ai
+					wrap(sp, m)
+				}
+			}
+		}
+	}
+}
+
 type c15state struct {
 	mu       sync.Mutex
 	rep      *rt.Report
@@ -847,6 +904,14 @@ func C15(tier rt.Tier) int {
 		if ck != "util.CreateNode" {
 			for _, c := range corp[ck] {
 				typeConfusions(c, 1, func(m []byte) { emit(m); count++ })
+			}
+		}
+		// (d'') byte-level damage INSIDE an embedded element, the envelope staying well-formed: every
+		// truncation, every single-byte deletion, every width change of an integer or length head and the
+		// special byte values at every position of each embedded element, re-wrapped with a correct head
+		if ck != "util.CreateNode" {
+			for _, c := range corp[ck] {
+				nestedMutations(c, func(m []byte) { emit(m); count++ })
 			}
 		}
 		// (d') kind confusion with equal hashes
